@@ -86,6 +86,12 @@ def cases(rng, tier):
                 w1, w2 = subn(), subn()
                 opn = rng.randint(0, 3)
             out.append(G.line("fuse", fmt, rng.choice(G.FAMS_1D) + rng.choice([".o", ".r", ".o.asg"]), [n, opn, 0], list(w1) + list(w2)))
+        # aliased operands: the very same object passed as both operands (self-fusion adds the evidence to itself for the
+        # cumulative operators; only reference identity distinguishes this from fusing two equal opinions)
+        for _ in range(N // 10):
+            n = rng.choice([2, 3, 4])
+            w = G.rand_opinion(rng, n, rng.choice([4, 8, 16, 64]), rng.choice(["int", "int", "any", "dog", "vac"]))
+            out.append(G.line("fuse", fmt, rng.choice(G.FAMS_1D) + "." + rng.choice(["o", "r"]) + ".alias", [n, rng.randint(0, 3), 0], w + w))
         for _ in range(N // 10):
             n = rng.choice([1, 2, 3])
             b1, u1, _ = G.guard_operand(rng, fmt, n)
